@@ -5048,6 +5048,13 @@ let conv_count n0 s =
 let conv_broken =
   stateless (fun _ -> 'x'::(' '::('='::(' '::('('::[])))))
 
+(** val conv_fields : unit -> symbol -> unit * char list **)
+
+let conv_fields =
+  stateless (fun s ->
+    append (opt_str s.scode)
+      (' '::(' '::('#'::(' '::('{'::('e'::('n'::('d'::('o'::('g'::('e'::('n'::('o'::('u'::('s'::('}'::(' '::('{'::('e'::('x'::('o'::('g'::('e'::('n'::('o'::('u'::('s'::('}'::(' '::('{'::('p'::('a'::('r'::('a'::('m'::('e'::('t'::('e'::('r'::('s'::('}'::(' '::('{'::('e'::('r'::('r'::('o'::('r'::('s'::('}'::(' '::('{'::('l'::('a'::('g'::('s'::('}'::(' '::('{'::('l'::('e'::('a'::('d'::('s'::('}'::(' '::('{'::('e'::('q'::('u'::('a'::('t'::('i'::('o'::('n'::('s'::('}'::(' '::('{'::('{'::('x'::('}'::('}'::[]))))))))))))))))))))))))))))))))))))))))))))))))))))))))))))))))))))))))))))))))))))
+
 (** val conv_empty : unit -> symbol -> unit * char list **)
 
 let conv_empty =
